@@ -30,6 +30,11 @@ def run(ctx):
         except Skip:
             pass
     try:
+        from . import c19 as _c19
+        _c19.status_signal_table(ctx, "R09.6")      # the `finished with status` a job reports for a signalled process
+    except Skip:
+        pass
+    try:
         jobrules.check_api_table(ctx, "R09.5")
     except Skip:
         pass
